@@ -242,6 +242,70 @@ class ConcreteCtx:
         raise cls(*args)
 
 
+class RandomCtx(ConcreteCtx):
+    """Concrete context that draws inputs at random (bounded fallback when symbolic execution cannot reach a function)."""
+
+    def __init__(self, rnd: Any) -> None:
+        ConcreteCtx.__init__(self, {}, [])
+        self.rnd = rnd
+        self.drawn: Dict[str, Any] = {}
+        self.drawn_choices: List[int] = []
+
+    def _draw(self, name: str, val: Any) -> Any:
+        self.drawn[name] = val
+        return val
+
+    def fresh_int(self, base: str = 'i') -> int:
+        r = self.rnd
+        return self._draw(self._name(base), r.choice([0, 1, 2, 3, 5, 8, 13, -1, -2, r.randint(-5, 40), r.randint(0, 2000)]))
+
+    def fresh_bool(self, base: str = 'b') -> bool:
+        return self._draw(self._name(base), self.rnd.random() < 0.5)
+
+    def fresh_str(self, base: str = 's', kind: str = 'str') -> Any:
+        r = self.rnd
+        alphabet = 'ab/.-_:=&,;%+ *01[]"\\\r\n'
+        v = ''.join(r.choice(alphabet) for _ in range(r.choice([0, 1, 1, 2, 3, 5, 9])))
+        self._draw(self._name(base), v)
+        return v if kind == 'str' else v.encode('latin-1')
+
+    def choose(self, n: int, label: str = 'ch') -> int:
+        ch = self.rnd.randrange(n) if n > 1 else 0
+        self.drawn_choices.append(ch)
+        return ch
+
+
+def random_concrete(hdef: HarnessDef, runs: int, seed: int) -> Dict[str, Any]:
+    """Bounded stand-in: run the harness natively on the real code `runs` times with random inputs."""
+    import random
+
+    rnd = random.Random(seed)
+    done = 0
+    invalid = 0
+    failures: List[Dict[str, Any]] = []
+    for _ in range(runs):
+        ctx = RandomCtx(rnd)
+        v = V(ctx, hdef, None, None)
+        try:
+            hdef.fn(v)
+            done += 1
+        except ReplayInvalid:
+            invalid += 1
+            continue
+        except (PathCut, core.PathDone):
+            done += 1
+        except Unreached:
+            invalid += 1
+            continue
+        except Exception:
+            invalid += 1
+            continue
+        for name, ok in ctx.results:
+            if not ok and not any(f['obligation'] == name for f in failures):
+                failures.append({'obligation': name, 'input': {'model': ctx.drawn, 'choices': ctx.drawn_choices}, 'harness': hdef.id})
+    return {'runs': done, 'rejected_inputs': invalid, 'failures': failures}
+
+
 class V:
     """Facade handed to a harness function."""
 
